@@ -108,11 +108,17 @@ def scaling(item):
     """transform is the column scaling X -> X diag(w): linear, support preserving, w >= 0"""
     iw = mod()
     rng = np.random.RandomState(item["seed"])
-    nr, nc = item["nr"], item["nc"]
-    M = build(item["enc"], nr, nc, "csr")
+    if item.get("matrix"):          # a hand-made matrix (columns whose raw weight is 0 or slightly negative) with its own settings
+        M = sp.csr_matrix(np.array(item["matrix"], dtype=np.float64))
+        nr, nc = M.shape
+        kws = item["kws"]
+    else:
+        nr, nc = item["nr"], item["nc"]
+        M = build(item["enc"], nr, nc, "csr")
+        kws = (dict(), dict(approx_prior=False, weight_power=1.0, prior_strength=0.5), dict(weight_power=2.0, prior_strength=1.0))
     fails = []
     y = item.get("y")
-    for kw in (dict(), dict(approx_prior=False, weight_power=1.0, prior_strength=0.5), dict(weight_power=2.0, prior_strength=1.0)):
+    for kw in kws:
         t = iw.InformationWeightTransformer(**kw)
         r = t.fit(M, y=y) if y is not None else t.fit(M)
         if r is not t:
